@@ -387,7 +387,7 @@ func observe(name string, fset *token.FileSet, f *ast.File, info *types.Info, sr
 }
 
 func main() {
-	mode := flag.String("mode", "events", "events | deadcode | tags")
+	mode := flag.String("mode", "events", "events | deadcode | rules | tags")
 	files := flag.String("files", "", "comma separated Go files (events mode)")
 	ngen := flag.Int("gen", 0, "number of generated files")
 	size := flag.Int("size", 40, "statements per generated function")
@@ -456,6 +456,14 @@ func main() {
 		}
 	case "deadcode":
 		runDeadcode(enc, rng, *ngen, *size, *tmp)
+	case "rules":
+		var extra []string
+		for _, p := range strings.Split(*files, ",") {
+			if p != "" {
+				extra = append(extra, p)
+			}
+		}
+		runRulesMode(enc, rng, *ngen, *size, *tmp, *variants > 0, extra)
 	default:
 		fmt.Fprintln(os.Stderr, "unknown mode")
 		os.Exit(2)
